@@ -700,3 +700,710 @@ def c17(run):
 
 
 CHECKS["C17"] = c17
+
+
+# ====================================================================== C14
+
+def enc_props(p):
+    """dict (or None / {}) -> the front end's props syntax; values: None, int, str, bool, float"""
+    if p is None:
+        return "N"
+    if not p:
+        return "E"
+    items = []
+    for k, v in p.items():
+        if v is None:
+            w = "N"
+        elif v is True:
+            w = "T"
+        elif v is False:
+            w = "U"
+        elif isinstance(v, int):
+            w = "I%d" % v
+        elif isinstance(v, float):
+            w = "F"
+        elif isinstance(v, str):
+            w = "S" + hx(v)
+        else:
+            w = "Z"
+        items.append(hx(k) + "=" + w)
+    return ";".join(items)
+
+
+def c14(run):
+    rng = random.Random(run.seed)
+    quick = run.tier == "quick"
+    import yaml
+    base = scratch_root()
+    NS2 = "http://ns.example.org/meta/v1"
+    F = fhs().FileHashStore
+    try:
+        n_cases = 260 if quick else 4000
+        k = 0
+        corpus = [
+            # (state, creation cfg, reopen mutation)  — the reopening properties are creation cfg + mutation
+            ("populated", (3, 2, "SHA-256", DEFAULT_NS), {"store_depth": "3", "store_width": "2"}),
+            ("populated", (3, 2, "SHA-256", DEFAULT_NS), {"store_depth": 2}),
+            ("populated", (3, 2, "SHA-256", DEFAULT_NS), {"store_algorithm": "sha256"}),
+            ("populated", (3, 2, "SHA-256", DEFAULT_NS), {"store_algorithm": "SHA-512"}),
+            ("populated", (3, 2, "SHA-256", DEFAULT_NS), {"store_metadata_namespace": NS2}),
+            ("datadirs", (3, 2, "SHA-256", DEFAULT_NS), {}),
+            ("noroot", (3, 2, "SHA-224", DEFAULT_NS), {}),
+            ("emptyroot", (3, 2, "sha256", DEFAULT_NS), {}),
+            ("yaml", (5, 4, "MD5", NS2), {"store_width": " 4 "}),
+            ("yaml", (5, 4, "MD5", NS2), {"store_width": "4.0"}),
+            ("yaml", (1, 1, "SHA-1", NS2), {"store_depth": True}),
+        ]
+        while k < n_cases:
+            if k < len(corpus):
+                state, create, mut = corpus[k]
+            else:
+                state = rng.choice(["noroot", "emptyroot", "datadirs", "yaml", "populated", "populated"])
+                create = (rng.randint(1, 5), rng.randint(1, 4), rng.choice(list(ALGOS)), rng.choice([DEFAULT_NS, NS2]))
+                mut = {}
+                r = rng.random()
+                if state in ("noroot", "emptyroot", "datadirs"):
+                    if r < 0.35:
+                        create = create[:2] + (rng.choice(["SHA-224", "sha256", "SHA256", "sha3_256", "BLAKE2B", "md5", "SHA_256", "Sha-256", "SHA-3"]),) + create[3:]
+                    elif r < 0.5:
+                        mut = {rng.choice(["store_depth", "store_width"]): rng.choice(["2", " 3", "x", "", "2.0", None, "1_0", "+2"])}
+                else:
+                    if r < 0.2:
+                        mut = {}
+                    elif r < 0.4:
+                        key = rng.choice(["store_depth", "store_width"])
+                        cur = create[0] if key == "store_depth" else create[1]
+                        mut = {key: rng.choice([str(cur), " %d " % cur, "0%d" % cur, "+%d" % cur, cur + 1, str(cur + 1), max(1, cur - 1), "%d.0" % cur, "x", None, True])}
+                    elif r < 0.6:
+                        a = create[2]
+                        mut = {"store_algorithm": rng.choice([a.lower(), a.replace("-", ""), a.replace("-", "_"), rng.choice(list(ALGOS)), "SHA-224", ALGOS[a], None, a + " "])}
+                    elif r < 0.75:
+                        mut = {"store_metadata_namespace": rng.choice([NS2, DEFAULT_NS, DEFAULT_NS + "/", DEFAULT_NS.upper(), "", None])}
+                    elif r < 0.85:
+                        mut = {"__drop__": rng.choice(["store_depth", "store_width", "store_algorithm", "store_metadata_namespace"])}
+                    elif r < 0.92:
+                        mut = {"extra_key": "extra", "store_depth": str(create[0])}
+                    else:
+                        mut = {"store_depth": create[0] + rng.choice([0, 1]), "store_algorithm": rng.choice(list(ALGOS))}
+            k += 1
+            sub = os.path.join(base, "s%d" % k)
+            os.makedirs(sub)
+            root = os.path.join(sub, "store")
+            d, w, a, ns = create
+            cprops = {"store_path": root, "store_depth": d, "store_width": w, "store_algorithm": a, "store_metadata_namespace": ns}
+            stored = {}
+            yaml_cfg = "N"
+            if state in ("yaml", "populated"):
+                try:
+                    hs = F(dict(cprops))
+                except Exception:  # noqa: BLE001 - creation with an unsupported name is itself a case below
+                    shutil.rmtree(sub, ignore_errors=True)
+                    continue
+                yaml_cfg = "%d,%d,%s,%s" % (d, w, hx(a), hx(ns))
+                if state == "populated":
+                    for i in range(2):
+                        data = os.urandom(50 + i)
+                        src = os.path.join(sub, "src%d" % i)
+                        with open(src, "wb") as fh:
+                            fh.write(data)
+                        hs.store_object("pid-%d" % i, src)
+                        hs.store_metadata("pid-%d" % i, src)
+                        stored["pid-%d" % i] = data
+            elif state == "emptyroot":
+                os.makedirs(root)
+            elif state == "datadirs":
+                for s_ in ("objects", "metadata", "refs"):
+                    os.makedirs(os.path.join(root, s_))
+            # the reopening properties
+            rprops = dict(cprops)
+            for kk, vv in mut.items():
+                if kk == "__drop__":
+                    rprops.pop(vv, None)
+                else:
+                    rprops[kk] = vv
+            root_exists = os.path.exists(root)
+            dd = os.path.isdir(os.path.join(root, "objects"))
+            before = tree(sub, with_dirs=True, mtime=True)
+            try:
+                hs2 = F(dict(rprops))
+                y = yaml.safe_load(open(os.path.join(root, "hashstore.yaml")))
+                eff = []
+                if not root_exists:
+                    eff.append("mkroot")
+                if yaml_cfg == "N":
+                    eff.append("writeyaml")
+                if not dd:
+                    eff.append("mkdatadirs")
+                gi = "accept %d %d %s %s [%s]" % (hs2.depth, hs2.width, hx(y["store_algorithm"]), hx(hs2.sysmeta_ns), ",".join(eff))
+            except Exception as e:  # noqa: BLE001
+                hs2 = None
+                gi = "refuse " + exn_name(e)
+            after = tree(sub, with_dirs=True, mtime=True)
+            gm = layerA(["config %s %s %s %s" % (yaml_cfg, "1" if root_exists else "0", "1" if dd else "0", enc_props(rprops))])[0]
+            key = (state, create, tuple(sorted((str(a_), str(b_)) for a_, b_ in mut.items())))
+            run.case("P-config", key, nontrivial=bool(mut) or state in ("datadirs", "populated"),
+                     sample={"projection": "P-config", "state": state, "created_with": list(create), "reopen_change": {str(a_): b_ for a_, b_ in mut.items()},
+                             "model": gm[:60], "impl": gi[:60]})
+            run.count("state", state)
+            run.count("decision", gi.split(" ")[0] + ("" if gi.startswith("accept") else ":" + gi.split(" ")[1]))
+            if gm != gi and gm != "refuse TypeError":
+                run.disagree("P-config", {"state": state, "created_with": create, "reopen_props": {k2: v2 for k2, v2 in rprops.items() if k2 != "store_path"}},
+                             gm, gi, ["C14_open_iff", "C14_reopen_mismatch_refused", "C14_effects_only_on_accept"])
+            # ---- property oracle (independent of the model)
+            if hs2 is None:
+                if before != after:
+                    diff = sorted(set(before) ^ set(after)) or [p for p in before if before[p] != after.get(p)]
+                    run.violation({"kind": "refused-but-wrote", "state": state, "class": gi},
+                                  "a refused open (%s) created or modified files: %s" % (gi, diff[:4]),
+                                  {"state": state, "created_with": create, "reopen_props": {k2: v2 for k2, v2 in rprops.items() if k2 != "store_path"}})
+            else:
+                if state in ("yaml", "populated"):
+                    def as_int(v):
+                        try:
+                            return int(v)
+                        except Exception:  # noqa: BLE001
+                            return None
+                    same = (as_int(rprops.get("store_depth")) == d and as_int(rprops.get("store_width")) == w
+                            and rprops.get("store_algorithm") == a and rprops.get("store_metadata_namespace") == ns)
+                    if not same:
+                        run.violation({"kind": "mismatch-accepted", "keys": sorted(str(x) for x in mut)},
+                                      "an existing store created with %s was opened with different properties %s" % (create, mut),
+                                      {"state": state, "created_with": create, "reopen_props": {k2: v2 for k2, v2 in rprops.items() if k2 != "store_path"}})
+                    if before != after:
+                        diff = sorted(set(before) ^ set(after)) or [p for p in before if before[p] != after.get(p)]
+                        run.violation({"kind": "reopen-wrote", "state": state}, "reopening an existing store modified files: %s" % diff[:4],
+                                      {"state": state, "created_with": create})
+                    for p, data in stored.items():
+                        try:
+                            s_ = hs2.retrieve_object(p)
+                            got = s_.read()
+                            s_.close()
+                            s_ = hs2.retrieve_metadata(p)
+                            got2 = s_.read()
+                            s_.close()
+                        except Exception as e:  # noqa: BLE001
+                            got, got2 = "exn:" + exn_name(e), None
+                        if got != data or got2 != data:
+                            run.violation({"kind": "data-invisible"}, "after an accepted reopen the data of %s is not visible as before (%s)" % (p, str(got)[:30]),
+                                          {"state": state, "created_with": create, "reopen_props": {k2: v2 for k2, v2 in rprops.items() if k2 != "store_path"}})
+                elif state == "datadirs":
+                    run.violation({"kind": "datadirs-accepted"}, "a directory holding store data but no configuration file was opened", {"state": state, "created_with": create})
+                else:
+                    if a not in ALGOS:
+                        run.violation({"kind": "unsupported-accepted", "algorithm": a}, "a store was created with the unsupported store algorithm %r" % a, {"created_with": create})
+            shutil.rmtree(sub, ignore_errors=True)
+    finally:
+        shutil.rmtree(base, ignore_errors=True)
+
+
+CHECKS["C14"] = c14
+
+
+# ====================================================================== C01
+
+class RecordingReader(io.BufferedReader):
+    """a buffered binary stream that records the sizes returned by read(n)"""
+
+    def __init__(self, raw):
+        super().__init__(raw)
+        self.reads = []
+        self.requested = []
+
+    def read(self, n=-1):
+        r = super().read(n)
+        self.requested.append(n)
+        self.reads.append(len(r))
+        return r
+
+
+def c01(run):
+    rng = random.Random(run.seed)
+    quick = run.tier == "quick"
+    base = scratch_root()
+    try:
+        probe = os.path.join(base, "probe")
+        open(probe, "wb").close()
+        bsf = os.stat(probe).st_blksize          # buffer size the implementation sees for file-backed data
+        bsm = 8192                               # ... and for in-memory streams (no .name)
+        kinds = ["str", "Path", "file", "file@mid", "file@end", "bytesio", "bytesio@mid", "bufreader"]
+        n = 0
+        stores = {}
+        for a in ALGOS:
+            sub = os.path.join(base, "st-" + a)
+            os.makedirs(sub)
+            stores[a] = new_store(sub, algo=a)[0]
+        sizes_for = lambda bs: sorted({0, 1, 2, bs - 1, bs, bs + 1, 2 * bs - 1, 2 * bs, 2 * bs + 1, 3 * bs + 7, rng.randint(2, 5 * bs)} |
+                                      (set() if quick else {5 * bs, 1 << 20, (1 << 20) + 1}))
+        cases = []
+        for kind in kinds:
+            bs = bsf if kind in ("str", "Path", "file", "file@mid", "file@end") else bsm
+            for size in sizes_for(bs):
+                algos = list(ALGOS) if (not quick or size in (0, bs, 2 * bs + 1)) else [rng.choice(list(ALGOS))]
+                for a in algos:
+                    cases.append((kind, size, a, bs))
+        want_chunks = dict(zip([(bs, size) for (_, size, _, bs) in cases],
+                               layerA(["chunks %d %d" % (bs, size) for (_, size, _, bs) in cases])))
+        for kind, size, a, bs in cases:
+            n += 1
+            hs = stores[a]
+            data = os.urandom(size)
+            src = os.path.join(base, "src-%d" % n)
+            with open(src, "wb") as fh:
+                fh.write(data)
+            pid = "pid-%s-%d" % (a, n)
+            off = {"file@mid": size // 2, "file@end": size, "bytesio@mid": size // 3}.get(kind, 0)
+            rec = None
+            stream = None
+            if kind == "str":
+                arg = src
+            elif kind == "Path":
+                arg = Path(src)
+            elif kind.startswith("file"):
+                stream = RecordingReader(io.FileIO(src, "r"))
+                stream.seek(off)
+                arg = rec = stream
+            elif kind.startswith("bytesio"):
+                stream = io.BytesIO(data)
+                stream.seek(off)
+                arg = stream
+            else:
+                stream = RecordingReader(io.BytesIO(data))
+                arg = rec = stream
+            try:
+                m = hs.store_object(pid, arg)
+                out = "ok"
+            except Exception as e:  # noqa: BLE001
+                m, out = None, "exn:" + exn_name(e)
+            key = (kind, size, a)
+            run.case("P-stream", key, nontrivial=size > 0, sample={"projection": "P-stream", "kind": kind, "size": size, "algorithm": a, "buffer": bs, "outcome": out})
+            run.count("kind", kind)
+            replay = {"kind": kind, "size": size, "algorithm": a, "offset": off}
+            if m is None:
+                run.violation({"kind": "store-raised", "data": kind, "exn": out}, "store_object(pid, <%s of %d bytes>) raised %s" % (kind, size, out[4:]), replay)
+                continue
+            # correspondence: the sequence of non-empty reads is the model's chunking of the content
+            if rec is not None and isinstance(rec, RecordingReader):
+                got = [x for x in rec.reads if x > 0]
+                want = [int(x) for x in want_chunks[(bs, size)].split(",")] if want_chunks[(bs, size)] != "-" else []
+                file_backed = kind.startswith("file")
+                if not file_backed or True:
+                    # FileIO has no .name problems: BufferedReader over FileIO has .name = path -> blksize of the file
+                    if got != want:
+                        run.disagree("P-stream/chunks", replay, want[:6], got[:6], ["C01_chunks_concat", "C01_chunks_bounds"])
+            # property oracle
+            cid = independent_digest(ALGOS[a], src, data)
+            if m.cid != cid or m.obj_size != size:
+                run.violation({"kind": "cid-size", "data": kind}, "store_object reported cid/size %s.../%s for content of %d bytes whose %s digest is %s..." % (m.cid[:12], m.obj_size, size, a, cid[:12]), replay)
+            try:
+                s_ = hs.retrieve_object(pid)
+                got = s_.read()
+                s_.close()
+            except Exception as e:  # noqa: BLE001
+                got = "exn:" + exn_name(e)
+            if got != data:
+                run.violation({"kind": "bytes", "data": kind}, "retrieve_object after store_object(<%s, %d bytes>) does not return the stored bytes (%s)" % (kind, size, str(got)[:30]), replay)
+            if stream is not None:
+                if stream.closed:
+                    run.violation({"kind": "stream-closed", "data": kind}, "the caller's stream (%s) was closed by store_object" % kind, replay)
+                elif stream.tell() != off:
+                    run.violation({"kind": "stream-offset", "data": kind}, "the caller's stream (%s) was left at offset %d, it was supplied at %d" % (kind, stream.tell(), off), replay)
+                if not stream.closed:
+                    stream.close()
+            os.remove(src)
+        # ---- histories of other calls between the store and the retrieve
+        n_hist = 12 if quick else 150
+        for hno in range(n_hist):
+            a = rng.choice(list(ALGOS))
+            sub = os.path.join(base, "h%d" % hno)
+            os.makedirs(sub)
+            hs, root = new_store(sub, algo=a)
+            data = os.urandom(rng.choice([0, 1, 700, bsf + 1, 3 * bsf]))
+            other = os.urandom(33)
+            src, osrc = os.path.join(sub, "x"), os.path.join(sub, "o")
+            for p_, d_ in ((src, data), (osrc, other)):
+                with open(p_, "wb") as fh:
+                    fh.write(d_)
+            m = hs.store_object("the-pid", src)
+            log = []
+            wrong = "0" * len(m.cid)
+            menu = [
+                ("store_object(q, same)", lambda q: hs.store_object(q, src)),
+                ("store_object(q, other)", lambda q: hs.store_object(q, osrc)),
+                ("store_object(q, same, wrong checksum)", lambda q: hs.store_object(q, src, None, wrong, a)),
+                ("store_object(None, same)", lambda q: hs.store_object(None, src)),
+                ("tag_object(q, cid)", lambda q: hs.tag_object(q, m.cid)),
+                ("delete_object(q)", lambda q: hs.delete_object(q)),
+                ("delete_if_invalid_object(meta, wrong)", lambda q: hs.delete_if_invalid_object(m, wrong, a, len(data) or 1)),
+                ("delete_if_invalid_object(meta, wrong size)", lambda q: hs.delete_if_invalid_object(m, m.cid, a, len(data) + 1)),
+                ("store_metadata(q)", lambda q: hs.store_metadata(q, osrc)),
+                ("store_metadata(the-pid)", lambda q: hs.store_metadata("the-pid", osrc)),
+                ("delete_metadata(q)", lambda q: hs.delete_metadata(q)),
+                ("delete_metadata(the-pid)", lambda q: hs.delete_metadata("the-pid")),
+                ("store_object(the-pid, other)", lambda q: hs.store_object("the-pid", osrc)),
+                ("tag_object(the-pid, cid)", lambda q: hs.tag_object("the-pid", m.cid)),
+                ("get_hex_digest(q)", lambda q: hs.get_hex_digest(q, "md5")),
+            ]
+            for step in range(rng.randint(3, 10 if quick else 25)):
+                name, fn = rng.choice(menu)
+                q = rng.choice(["q1", "q2", "the-pid-2", "the-pi"])
+                try:
+                    fn(q)
+                    log.append(name.replace("q", q, 1) + " ok")
+                except Exception as e:  # noqa: BLE001
+                    log.append(name.replace("q", q, 1) + " " + exn_name(e))
+                try:
+                    s_ = hs.retrieve_object("the-pid")
+                    got = s_.read()
+                    s_.close()
+                except Exception as e:  # noqa: BLE001
+                    got = "exn:" + exn_name(e)
+                if got != data:
+                    run.violation({"kind": "history", "last": name}, "after [%s] retrieve_object(the-pid) no longer returns the stored bytes (%s)" % ("; ".join(log), str(got)[:30]),
+                                  {"algorithm": a, "size": len(data), "history": log})
+                    break
+            run.case("search-histories", (hno,), sample={"search": "calls on other pids between store and retrieve", "history": log[:8]})
+            shutil.rmtree(sub, ignore_errors=True)
+    finally:
+        shutil.rmtree(base, ignore_errors=True)
+
+
+CHECKS["C01"] = c01
+
+
+# ====================================================================== C19
+
+def c19(run):
+    import seq
+    import oracles
+    from universe import Universe, history_line, token_line
+    rng = random.Random(run.seed)
+    quick = run.tier == "quick"
+    A = seq.alphabet("all", contents={7: 1, 8: 1}, pids=(1, 2, 3))
+    n_cases = 120 if quick else 1500
+    ALG_PRE = ["SHA-256", "sha256", "MD5", "SHA-1", "sha-384", "SHA_512"]
+    ALG_OTHER = ["sha3_256", "SHA3-256", "sha224", "blake2b", "BLAKE2S", "sha3_512"]
+    for k in range(n_cases):
+        u = Universe()
+        prefix = seq.random_history(rng, A, rng.randint(0, 6))
+        for c in prefix:
+            seq.decorate(rng, c)
+        p, b = rng.choice([1, 2, 3]), rng.choice([7, 8])
+        mode = rng.choice(["absent", "correct", "correct", "wrongck", "wrongsz", "correct-nondefault", "wrongck-nondefault"])
+        pre = "nondefault" not in mode
+        algo = rng.choice(ALG_PRE if pre else ALG_OTHER)
+        case_ = rng.choice(["lower", "upper"])
+        if mode == "absent":
+            sz, ck = "n", "n"
+        elif mode.startswith("correct"):
+            sz, ck = rng.choice(["o", "n"]), "o"
+        elif mode.startswith("wrongck"):
+            sz, ck = rng.choice(["o", "n"]), "b"
+        else:
+            sz, ck = "b", "o"
+        real = {"algo": algo, "case": case_}
+        one = [dict(c) for c in prefix] + [{"op": "so", "p": p, "b": b, "n": 1, "sz": sz, "ck": ck, "real": dict(real)}]
+        steps = [dict(c) for c in prefix] + [{"op": "so", "p": None, "b": b, "n": 1}]
+        if ck != "n":
+            steps.append({"op": "dii", "c": b, "sz": sz, "pre": pre, "ok": ck == "o", "real": dict(real)})
+        steps.append({"op": "tag", "p": p, "c": b})
+        res = {}
+        for _ in range(2):      # contents first, then the never-stored cids (registering a content rebuilds the cid table)
+            seq.prepare(u, one)
+            seq.prepare(u, steps)
+        for name, h in (("one", one), ("steps", steps)):
+            ms = seq.run_model([h])[0]
+            outs = []
+            # the stepwise procedure stops at the first call that raises
+            def runit(h=h):
+                from universe import Impl
+                ps, fs = seq.ids_of(h)
+                im = Impl(u, ps, fs)
+                r = []
+                try:
+                    for i, c in enumerate(h):
+                        o = im.call(c)
+                        r.append((o, im.state(), {}))
+                        if name == "steps" and i >= len(prefix) and o.startswith("exn:"):
+                            break
+                    return r, [c.get("_meta") for c in h]
+                finally:
+                    im.close()
+            ires, metas = runit()
+            for i, (m_, i_) in enumerate(zip(ms, ires)):
+                d = seq.diff_step(m_, i_)
+                if d:
+                    run.disagree("P-seq[C19]", {"procedure": name, "line": history_line("states", h), "step": i}, m_[0], i_[0] + " " + d[:200],
+                                 ["C19_converge_valid", "C19_converge_invalid"])
+                    break
+            res[name] = (ires, metas)
+        (r1, m1), (r2, m2) = res["one"], res["steps"]
+        st1, st2 = r1[-1][1], r2[-1][1]
+        o1, o2 = r1[-1][0], r2[-1][0]
+        key = (tuple(token_line(c) for c in prefix), p, b, mode)
+        run.case("P-seq[C19]", key, nontrivial=True, sample={"projection": "P-seq[C19]", "prefix": [token_line(c) for c in prefix], "pid": p, "content": b,
+                                                             "validation": mode, "algorithm": algo, "one_call": o1, "in_steps": o2})
+        run.count("validation", mode)
+        run.count("one_call_outcome", o1.split(":")[1] if o1.startswith("exn") else "ok")
+        replay = {"prefix": seq.strip(prefix), "pid": p, "content": b, "validation": mode, "algorithm": algo, "case": case_}
+        before = r1[len(prefix) - 1][1] if prefix else {}
+        if mode == "absent" or mode.startswith("correct"):
+            if st1 != st2:
+                km = {k_: v for k_, v in st1.items() if st2.get(k_) != v}
+                ki = {k_: v for k_, v in st2.items() if st1.get(k_) != v}
+                run.violation({"kind": "states-differ", "validation": mode}, "one call and in-steps leave different states (validation %s): only-one-call %s, only-in-steps %s; prefix [%s]" % (
+                    mode, km, ki, "; ".join(token_line(c) for c in prefix)), replay)
+            c1 = (o1.split(":")[0], o1.split(":")[1] if o1.startswith("exn") else "")
+            c2 = (o2.split(":")[0], o2.split(":")[1] if o2.startswith("exn") else "")
+            if c1 != c2:
+                run.violation({"kind": "outcomes-differ", "validation": mode}, "one call ends with %s, in-steps with %s (validation %s)" % (o1, o2, mode), replay)
+            ma, mb = m1[len(prefix)], m2[len(prefix)]
+            if ma is not None and mb is not None:
+                five = ("md5", "sha1", "sha256", "sha384", "sha512")
+                if (ma.cid, ma.obj_size, {a_: ma.hex_digests[a_] for a_ in five}) != (mb.cid, mb.obj_size, {a_: mb.hex_digests[a_] for a_ in five}):
+                    run.violation({"kind": "reports-differ"}, "the two procedures report different cid / size / default digests", replay)
+        else:
+            want = "exn:NonMatchingObjSize" if mode == "wrongsz" else "exn:NonMatchingChecksum"
+            b1, _, _, _, _ = oracles.refs_of(st1)
+            b2, _, _, _, _ = oracles.refs_of(st2)
+            b0, l0, obj0, _, _ = oracles.refs_of(before)
+            if o1 != want or o2 != want:
+                # a pid that is already bound, or a rejected argument, legitimately pre-empts the mismatch in neither procedure
+                run.violation({"kind": "mismatch-class", "validation": mode}, "incorrect validation data (%s): one call -> %s, in steps -> %s, expected %s in both" % (mode, o1, o2, want), replay)
+            for nm, bb, st in (("one call", b1, st1), ("in steps", b2, st2)):
+                if bb.get(str(p)) != b0.get(str(p)):
+                    run.violation({"kind": "bound-after-invalid", "proc": nm}, "%s with incorrect validation data left pid %d bound to %s" % (nm, p, bb.get(str(p))), replay)
+                for cid, lst in l0.items():
+                    if lst and cid in obj0 and st.get("O" + cid) != before.get("O" + cid):
+                        run.violation({"kind": "referenced-disturbed", "proc": nm}, "%s with incorrect validation data disturbed referenced object %s" % (nm, cid), replay)
+
+
+CHECKS["C19"] = c19
+
+
+# ====================================================================== C20
+
+VERB_FLAGS = ["-getchecksum", "-storeobject", "-storemetadata", "-retrieveobject", "-retrievemetadata", "-deleteobject", "-deletemetadata"]
+VERB_API = {"-getchecksum": "get_hex_digest", "-storeobject": "store_object", "-storemetadata": "store_metadata",
+            "-retrieveobject": "retrieve_object", "-retrievemetadata": "retrieve_metadata", "-deleteobject": "delete_object",
+            "-deletemetadata": "delete_metadata"}
+
+
+def show_py(v):
+    if v is None:
+        return "N"
+    if v is True:
+        return "T"
+    if v is False:
+        return "U"
+    if isinstance(v, int):
+        return "I%d" % v
+    if isinstance(v, str):
+        return "S" + hx(v)
+    if isinstance(v, Path):
+        return "P" + hx(str(v))
+    return "Z"
+
+
+def run_client(argv):
+    """hashstoreclient.main() in-process -> (stdout, exception class or None, calls that reached the API)"""
+    import contextlib
+    import hashstore.hashstoreclient as hc
+    F = fhs().FileHashStore
+    calls = []
+    saved = {}
+    for name in VERB_API.values():
+        orig = getattr(F, name)
+        saved[name] = orig
+
+        def mk(name, orig):
+            def wrapper(self, *a, **k):
+                calls.append((name, a, k))
+                return orig(self, *a, **k)
+            return wrapper
+        setattr(F, name, mk(name, orig))
+    out = io.StringIO()
+    old_argv = sys.argv
+    sys.argv = ["hashstore"] + argv
+    exn = None
+    try:
+        with contextlib.redirect_stdout(out), contextlib.redirect_stderr(io.StringIO()):
+            hc.main()
+    except SystemExit as e:
+        exn = "SystemExit"
+    except Exception as e:  # noqa: BLE001
+        exn = exn_name(e)
+    finally:
+        sys.argv = old_argv
+        for name, orig in saved.items():
+            setattr(F, name, orig)
+    return out.getvalue(), exn, calls
+
+
+def c20(run):
+    rng = random.Random(run.seed)
+    quick = run.tier == "quick"
+    base = scratch_root()
+    F = fhs().FileHashStore
+    try:
+        data = ("object-content-for-the-client " * 7).encode()
+        doc = b"<metadata>for the client</metadata>"
+        src = os.path.join(base, "obj.bin")
+        dsrc = os.path.join(base, "doc.xml")
+        with open(src, "wb") as fh:
+            fh.write(data)
+        with open(dsrc, "wb") as fh:
+            fh.write(doc)
+        sha = hashlib.sha256(data).hexdigest()
+        VALUES = {
+            "-pid": ["client-pid", "bound-pid", "unknown-pid"],
+            "-path": [src, dsrc, os.path.join(base, "missing")],
+            "-algo": ["SHA-256", "sha3_256", "md5", "blake2b", "nonsense", "SHA-224"],
+            "-checksum": [sha, sha.upper(), "0" * 64, hashlib.md5(data).hexdigest()],
+            "-checksum_algo": ["SHA-256", "sha256", "MD5", "nonsense"],
+            "-obj_size": [str(len(data)), str(len(data) + 1), "0", "-3", "abc", "5.0", " %d " % len(data), "1_0"],
+            "-formatid": [DEFAULT_NS, "http://other/ns", "fmt2"],
+        }
+        OPTS = list(VALUES)
+        n_cases = 160 if quick else 2500
+        corpus = [("-storeobject", {"-pid": "client-pid", "-path": src, "-obj_size": str(len(data))}),
+                  ("-storeobject", {"-pid": "client-pid", "-path": src, "-checksum": sha, "-checksum_algo": "SHA-256", "-algo": "sha3_256"}),
+                  ("-deletemetadata", {"-pid": "bound-pid"}),
+                  ("-retrievemetadata", {"-pid": "bound-pid"}),
+                  ("-getchecksum", {"-pid": "bound-pid", "-algo": "md5"})]
+        for k in range(n_cases):
+            if k < len(corpus):
+                verb, opts = corpus[k]
+            else:
+                verb = rng.choice(VERB_FLAGS)
+                relevant = {"-getchecksum": ["-pid", "-algo"], "-storeobject": OPTS[:6], "-storemetadata": ["-pid", "-path", "-formatid"],
+                            "-retrieveobject": ["-pid"], "-retrievemetadata": ["-pid", "-formatid"], "-deleteobject": ["-pid"],
+                            "-deletemetadata": ["-pid", "-formatid"]}[verb]
+                opts = {}
+                for o in OPTS:
+                    pr = 0.8 if o in relevant[:2] else (0.45 if o in relevant else 0.08)
+                    if rng.random() < pr:
+                        opts[o] = rng.choice(VALUES[o])
+                if verb == "-storemetadata" and "-path" in opts and rng.random() < 0.7:
+                    opts["-path"] = dsrc
+            # two copies of one store: bound-pid stored with two metadata documents
+            sub = os.path.join(base, "k%d" % k)
+            os.makedirs(sub)
+            roots = []
+            for nm in ("A", "B"):
+                hs, root = new_store(sub, name=nm)
+                hs.store_object("bound-pid", src)
+                hs.store_metadata("bound-pid", dsrc)
+                hs.store_metadata("bound-pid", dsrc, "fmt2")
+                roots.append(root)
+            rootA, rootB = roots
+            argv = [rootA, verb] + ["%s=%s" % (o, v) for o, v in opts.items()]
+            out, exn, calls = run_client(argv)
+            # ---- correspondence with the model's option -> call mapping
+            enc = lambda o: "N" if o not in opts else "S" + hx(opts[o])
+            flags = "".join("1" if f == verb else "0" for f in VERB_FLAGS)
+            gm = layerA(["client 1 %s %s %s %s %s %s %s %s %s" % (hx(DEFAULT_NS), enc("-pid"), enc("-path"), enc("-algo"), enc("-checksum"),
+                                                                   enc("-checksum_algo"), enc("-obj_size"), enc("-formatid"), flags)])[0]
+            api_calls = [c for c in calls if c[0] == VERB_API[verb]]
+            if api_calls:
+                name, a, kw = api_calls[0]
+                gi = "call %s %s" % (name, " ".join(show_py(x) for x in a))
+            elif exn is not None:
+                gi = "exn " + exn
+            else:
+                gi = "nothing"
+            key = (verb, tuple(sorted(opts.items())))
+            run.case("P-client", key, nontrivial=bool(api_calls), sample={"projection": "P-client", "argv": argv[1:], "model": gm[:80], "impl": gi[:80]})
+            run.count("verb", verb)
+            run.count("reached_api", str(bool(api_calls)))
+            if gm != gi:
+                run.disagree("P-client", {"argv": argv[1:]}, gm, gi, ["C20_client_types_fixed", "C20_client_values_storeobject"])
+            # ---- property oracle: same effect and same report as the API call with those values (independent mapping)
+            size = opts.get("-obj_size")
+            api_exn, api_ret = None, None
+            hsB = F({"store_path": rootB, "store_depth": 3, "store_width": 2, "store_algorithm": "SHA-256", "store_metadata_namespace": DEFAULT_NS})
+            fmt = opts.get("-formatid", DEFAULT_NS)
+            need = {"-getchecksum": ["-pid", "-algo"], "-storeobject": ["-pid", "-path"], "-storemetadata": ["-pid", "-path"]}.get(verb, ["-pid"])
+            skip_api = any(o not in opts for o in need)
+            size_int = None
+            if size is not None and verb == "-storeobject":
+                try:
+                    size_int = int(size)
+                except ValueError:
+                    skip_api = True           # not an integer: the client must refuse (ValueError), nothing to compare with
+            try:
+                if skip_api:
+                    api_exn = "ValueError"
+                elif verb == "-getchecksum":
+                    api_ret = hsB.get_hex_digest(opts["-pid"], opts["-algo"])
+                elif verb == "-storeobject":
+                    api_ret = hsB.store_object(opts["-pid"], opts["-path"], opts.get("-algo"), opts.get("-checksum"), opts.get("-checksum_algo"), size_int)
+                elif verb == "-storemetadata":
+                    api_ret = hsB.store_metadata(opts["-pid"], opts["-path"], fmt)
+                elif verb == "-retrieveobject":
+                    s_ = hsB.retrieve_object(opts["-pid"])
+                    api_ret = s_.read(1000).decode("utf-8")
+                    s_.close()
+                elif verb == "-retrievemetadata":
+                    s_ = hsB.retrieve_metadata(opts["-pid"], fmt)
+                    api_ret = s_.read(1000).decode("utf-8")
+                    s_.close()
+                elif verb == "-deleteobject":
+                    hsB.delete_object(opts["-pid"])
+                elif verb == "-deletemetadata":
+                    hsB.delete_metadata(opts["-pid"], fmt)
+            except Exception as e:  # noqa: BLE001
+                api_exn = exn_name(e)
+            tA = {p: v for p, v in tree(rootA).items() if not p.endswith(".log")}
+            tB = {p: v for p, v in tree(rootB).items() if not p.endswith(".log")}
+            replay = {"argv": argv[1:], "client_exception": exn, "api_exception": api_exn}
+            if exn != api_exn:
+                run.violation({"kind": "outcome", "verb": verb, "client": exn, "api": api_exn},
+                              "client %s %s ends with %s, the API call with those values with %s" % (verb, opts, exn, api_exn), replay)
+            elif tA != tB:
+                diff = sorted(set(tA) ^ set(tB)) or [p for p in tA if tA[p] != tB.get(p)]
+                run.violation({"kind": "effect", "verb": verb}, "client %s %s leaves a different store than the API call: %s" % (verb, opts, diff[:3]), replay)
+            elif exn is None and api_ret is not None:
+                if verb == "-getchecksum" and api_ret not in out:
+                    run.violation({"kind": "report", "verb": verb}, "client -getchecksum does not report the digest the API returns", replay)
+                if verb == "-storeobject" and (api_ret.cid not in out or any(v not in out for v in api_ret.hex_digests.values()) or str(api_ret.obj_size) not in out):
+                    run.violation({"kind": "report", "verb": verb}, "client -storeobject does not report the cid / size / digests the API returns", replay)
+                if verb == "-storemetadata" and os.path.relpath(str(api_ret), rootB) not in out.replace(rootA + "/", ""):
+                    run.violation({"kind": "report", "verb": verb}, "client -storemetadata does not report the path the API returns", replay)
+                if verb in ("-retrieveobject", "-retrievemetadata") and api_ret not in out:
+                    run.violation({"kind": "report", "verb": verb}, "client %s does not print the content the API returns" % verb, replay)
+            shutil.rmtree(sub, ignore_errors=True)
+        # ---- create with the client, open with the API, and vice versa
+        grid = [(d, w, a, ns) for d in (1, 3, 5) for w in (1, 2, 4) for a in list(ALGOS) + ["SHA-224", "sha256"] for ns in (DEFAULT_NS, "http://other/ns")]
+        rng.shuffle(grid)
+        for k, (d, w, a, ns) in enumerate(grid[: (30 if quick else len(grid))]):
+            sub = os.path.join(base, "c%d" % k)
+            os.makedirs(sub)
+            root = os.path.join(sub, "st")
+            out, exn, _ = run_client([root, "-chs", "-dp=%d" % d, "-wp=%d" % w, "-ap=" + a, "-nsp=" + ns])
+            props = {"store_path": root, "store_depth": d, "store_width": w, "store_algorithm": a, "store_metadata_namespace": ns}
+            try:
+                F(dict(props))
+                api = None
+            except Exception as e:  # noqa: BLE001
+                api = exn_name(e)
+            run.case("P-client/create", (d, w, a, ns), sample={"projection": "P-client/create", "props": [d, w, a, ns], "client": exn, "api_open": api})
+            ok_algo = a in ALGOS
+            if ok_algo and (exn is not None or api is not None):
+                run.violation({"kind": "create-open"}, "store created by the client with %s is not opened by the API with the same properties (client %s, API %s)" % ((d, w, a, ns), exn, api),
+                              {"props": [d, w, a, ns]})
+            if not ok_algo and exn is None:
+                run.violation({"kind": "create-unsupported"}, "client created a store with unsupported algorithm %s" % a, {"props": [d, w, a, ns]})
+            # vice versa
+            root2 = os.path.join(sub, "st2")
+            props["store_path"] = root2
+            if ok_algo:
+                F(dict(props))
+                out, exn2, calls = run_client([root2, "-retrieveobject", "-pid=nobody"])
+                if exn2 != "PidRefsDoesNotExist":
+                    run.violation({"kind": "api-create-client-open"}, "a store created by the API with %s is not usable by the client (%s)" % ((d, w, a, ns), exn2), {"props": [d, w, a, ns]})
+            shutil.rmtree(sub, ignore_errors=True)
+    finally:
+        shutil.rmtree(base, ignore_errors=True)
+
+
+CHECKS["C20"] = c20
